@@ -535,6 +535,10 @@ def make_termination(name):
 
 def make_monitor(kind, ctx=None, interval=1):
     from mystic.monitors import Monitor, VerboseMonitor, LoggingMonitor, VerboseLoggingMonitor
+    if kind and ':' in kind:
+        # 'plain:64', 'verbose:-1': a cost multiplier k (powers of two: the scaling is exact and transparent)
+        base, k = kind.split(':'); k = float(k)
+        return Monitor(k=k) if base == 'plain' else VerboseMonitor(interval, k=k)
     if kind in (None, 'plain'):
         return Monitor()
     if kind == 'verbose':
